@@ -171,8 +171,10 @@ def in_domain(c):
 
 
 # ------------------------------------------------------------------------------------ the check
-def run_check(prop, tier, seed):
-    ck = Check(prop, tier, seed)
+def run_check(prop, tier, seed, owner=None, restrict=None):
+    """owner / restrict: run the clauses of `prop` as part of another property's check (violations are reported under `owner`), on the
+    records satisfying restrict(v) only; the Check object is returned unfinished"""
+    ck = Check(owner or prop, tier, seed)
     t0 = time.time()
     prog, mir_wall = load_shm_program()
     nm = NowModel(prog)
@@ -191,6 +193,8 @@ def run_check(prop, tier, seed):
                        'timestamps within +-68 years, 0 <= tv_nsec < 1e9, 0 <= bound < 2^60']
     pr = Prover(seed)
     pr.add(nm.domain()); pr.add(ex.side)
+    if restrict is not None:
+        pr.add(restrict(nm.v))
     v = nm.v; n = nm.ns()
     real, mono, asof, va = n['real'], n['mono'], n['asof'], n['va']
 
@@ -370,6 +374,8 @@ def run_check(prop, tier, seed):
     ck.cov['counterexamples_replayed'] = confirmed[0]; ck.cov['counterexamples_confirmed'] = confirmed[1]
     for rp in rps:
         rp.close()
+    if owner:
+        return ck
     return ck.finish()
 
 
